@@ -135,7 +135,7 @@ theorem decryptSearchableWith_fst (k : Kind) (c : CryptoOps) (st : Store) (id da
   rw [checkRequest_ok false id (Or.inl rfl)]
   simp only
   cases hx : extractHashAndData (dataToDecrypt data hash) with
-  | none => cases k <;> rfl
+  | none => rfl
   | some hc =>
     obtain ⟨h, container⟩ := hc
     simp only
